@@ -25,16 +25,19 @@ Bad(c, e) == [ok |-> FALSE, clause |-> c, exp |-> e]
 Good == [ok |-> TRUE, clause |-> "", exp |-> 0]
 
 (* ---- lex ------------------------------------------------------------------------ *)
-\* "nothing but TokenSyntaxError": an observation either has no exception or one of exactly the
-\* type the tokenizer was told to use, with a message of the error alphabet
+\* "nothing but TokenSyntaxError": an observation either has no exception or the typed syntax error
+\* of the class the tokenizer was told to use (no other exception, no run-away: the harness turns a
+\* run that exceeds LinearBound cursor reads into an exception of its own)
 TotalOK(out, etype) == \/ out.err.id = "none" /\ out.etype = ""
-                       \/ out.err.id \in ErrIds /\ out.etype = etype
+                       \/ out.err.id = "error" /\ out.etype = etype
 \* ends with EOF for ever (three EOFs logged), or with the error
 EndsOK(out) == IF out.err.id = "none"
                THEN /\ Len(out.toks) >= 3
                     /\ \A k \in (Len(out.toks) - 2)..Len(out.toks) : out.toks[k].t = "EOF"
                     /\ \A k \in 1..(Len(out.toks) - 3) : out.toks[k].t # "EOF"
                ELSE \A k \in 1..Len(out.toks) : out.toks[k].t # "EOF"
+\* outs lists the DISTINCT observations (tokens, values, line numbers, and for an error its type,
+\* message, file and line): chunk independence = there is exactly one
 LexRec(r) ==
     LET exp == Expected(r.text, CfOf(r)) IN
     \* the property, judged on the observations alone
@@ -46,50 +49,36 @@ LexRec(r) ==
         THEN Bad("lex.chunking", [forms |-> IF \E k \in 1..Len(r.outs) : ~Agrees(r.outs[k], exp, r.etype)
                                             THEN r.outs[CHOOSE k \in 1..Len(r.outs) : ~Agrees(r.outs[k], exp, r.etype)].forms
                                             ELSE r.outs[2].forms, exp |-> exp])
-    \* linear: at most 2 (n + 1) cursor reads up to the first EOF / the error
-    ELSE IF r.outs[1].n > 2 * (Len(r.text) + 1) THEN Bad("lex.linear", 2 * (Len(r.text) + 1))
-    \* the code is the specified lexer
+    ELSE IF r.outs[1].n > LinearBound(Len(r.text)) THEN Bad("lex.linear", LinearBound(Len(r.text)))
+    \* what the specification adds: which texts are errors, and the token stream
     ELSE IF ~FoldTableOK(r.fold) THEN Bad("record.shape", 0)
-    ELSE IF r.outs[1].err # exp.err THEN Bad("lex.error", exp)
+    ELSE IF r.outs[1].err.id # exp.errk THEN Bad("lex.error", exp)
     ELSE IF r.outs[1].toks # exp.toks THEN Bad("lex.tokens", exp)
     ELSE IF ~Agrees(r.outs[1], exp, r.etype) THEN Bad("lex.type", exp)
-    ELSE IF r.outs[1].n # exp.n THEN Bad("lex.reads", exp.n)
     ELSE Good
 
 (* ---- steps ---------------------------------------------------------------------- *)
-EvProj(ev) == [k \in 1..Len(ev) |-> <<ev[k].c, ev[k].l, IF ev[k].cr THEN 1 ELSE 0, ev[k].nt>>]
+\* the cursor reads of one run: only their number is the property's business (linear)
 StepsRec(r) ==
-    LET ev == Events(r.text, CfOf(r)) IN
-    \* the property: at most 2 * (length + 1) characters are delivered up to the first EOF / the error
-    IF Len(r.ev) > 2 * (Len(r.text) + 1) THEN Bad("steps.linear", 2 * (Len(r.text) + 1))
-    ELSE IF r.ev # EvProj(ev) THEN Bad("steps.events", EvProj(ev))
-    \* the run really takes the model transition it was generated for
-    ELSE IF r.edge.k # 0 /\ ~(r.edge.k <= Len(ev) /\ ev[r.edge.k].m = r.edge.m /\ ev[r.edge.k].c = r.edge.c)
-        THEN Bad("steps.edge", IF r.edge.k <= Len(ev) THEN ev[r.edge.k] ELSE 0)
+    IF Len(r.ev) > LinearBound(Len(r.text)) THEN Bad("steps.linear", LinearBound(Len(r.text)))
     ELSE Good
 
 (* ---- cursor ----------------------------------------------------------------------- *)
-\* replay ops from cursor state cs / flat position a; returns 0 if all agree, else the index of
-\* the first op that does not and what was expected there
-RECURSIVE CursorFrom(_, _, _, _, _)
-CursorFrom(ops, j, cs, a, flat) ==
+\* The harness itself drives the cursor (next / rewind by one) along a path of the Cursor model, so
+\* it knows the flat position a of every read: whatever the chunking, the character delivered must
+\* be the one at that position of the flat text.  (The cursor's own bookkeeping - which chunk is
+\* current, the index in it - is the implementation's business and is not compared.)
+RECURSIVE CursorFrom(_, _, _, _)
+CursorFrom(ops, j, a, flat) ==
     IF j > Len(ops) THEN [j |-> 0, exp |-> 0, why |-> ""]
     ELSE LET op == ops[j] IN
         IF op.op = "next" THEN
-            LET d == CNext(cs)
-                want == [op |-> "next", res |-> d.res, it |-> d.s.it, idx |-> d.s.idx, cur |-> d.s.cur]
-            IN  IF op # want THEN [j |-> j, exp |-> want, why |-> "cursor.next"]
-                ELSE IF d.res # CharAt(flat, a + 1) THEN [j |-> j, exp |-> CharAt(flat, a + 1), why |-> "cursor.flat"]
-                ELSE CursorFrom(ops, j + 1, d.s, a + 1, flat)
-        ELSE IF op.op = "rewind" THEN
-            LET s2 == CRewind(cs)
-                want == [op |-> "rewind", res |-> 0, it |-> s2.it, idx |-> s2.idx, cur |-> s2.cur]
-            IN  IF op # want THEN [j |-> j, exp |-> want, why |-> "cursor.rewind"]
-                ELSE CursorFrom(ops, j + 1, s2, a - 1, flat)
+            IF op.res # CharAt(flat, a + 1) THEN [j |-> j, exp |-> CharAt(flat, a + 1), why |-> "cursor.flat"]
+            ELSE CursorFrom(ops, j + 1, a + 1, flat)
+        ELSE IF op.op = "rewind" THEN CursorFrom(ops, j + 1, a - 1, flat)
         ELSE [j |-> j, exp |-> 0, why |-> "cursor.op"]
 CursorRec(r) ==
-    LET c0 == IF r.str THEN CStr(r.text) ELSE CIter(r.chunks)
-        v == CursorFrom(r.ops, 1, c0, 0, r.text)
+    LET v == CursorFrom(r.ops, 1, 0, r.text)
     IN  IF ~r.str /\ Concat(r.chunks, 1) # r.text THEN Bad("record.shape", 0)
         ELSE IF v.j # 0 THEN Bad(v.why, [j |-> v.j, exp |-> v.exp])
         ELSE Good
@@ -101,9 +90,8 @@ KvRec(r) ==
     IF \E k \in 1..Len(r.outs) : ~KvTotal(r.outs[k])
         THEN Bad("kv.total", [forms |-> r.outs[CHOOSE k \in 1..Len(r.outs) : ~KvTotal(r.outs[k])].forms])
     ELSE IF Len(r.outs) # 1 THEN Bad("kv.chunking", [forms |-> r.outs[2].forms])
-    \* the parser reads the token stream of the specified lexer: a lexer error it reports is the
-    \* first one of that stream, and it cannot succeed past one
-    ELSE IF r.outs[1].err.id \in ErrIds /\ r.outs[1].err # L.err THEN Bad("kv.lexerror", L.err)
+    \* the parser reads the whole token stream of the lexer: it cannot succeed on a text the
+    \* specification says does not lex
     ELSE IF r.outs[1].etype = "" /\ ~r.popts.single_block /\ L.err # NoErrL THEN Bad("kv.lexok", L.err)
     ELSE Good
 
@@ -124,7 +112,7 @@ CallsRec(r) ==
     IN  IF \E k \in 1..Len(r.outs) : r.outs[k].etype \notin {"", r.etype}
             THEN Bad("calls.total", [forms |-> r.outs[CHOOSE k \in 1..Len(r.outs) : r.outs[k].etype \notin {"", r.etype}].forms])
         ELSE IF Len(r.outs) # 1 THEN Bad("calls.chunking", [forms |-> r.outs[2].forms, exp |-> exp])
-        ELSE IF r.outs[1].err # exp.err THEN Bad("calls.error", exp)
+        ELSE IF r.outs[1].err.id # ErrKind(exp.err) THEN Bad("calls.error", exp)
         ELSE IF r.outs[1].res # exp.res THEN Bad("calls.results", exp)
         ELSE Good
 
